@@ -127,12 +127,16 @@ theorem c04_faulty_records (c : Cfg) (rc : Int) (marker : Bool) (dps : Nat) (hf 
   unfold classify
   simp [h127, hf, hd]
 
+example : ({ N := 1, retries := 0, faulty := true } : Cfg).faulty = true ∧ (3 : Int) ≠ 127 ∧ (2 : Nat) ≠ 0 := by decide
+
 /-- `ignore_timeouts`: a timed-out process that printed data points counts as a success -/
 theorem c04_ignored_timeout_records (c : Cfg) (dps : Nat) (hi : c.ignoreTimeouts = true)
     (hd : dps ≠ 0) (hf : c.faulty = false) :
     classify c (.exit (-9) false dps) = .ok dps := by
   unfold classify
   simp [hi, hd, hf]
+
+example : ({ N := 1, retries := 0, ignoreTimeouts := true } : Cfg).ignoreTimeouts = true := by decide
 
 /-- the refinement invariant: the counters are functions of the history
 (newest first) of a fresh run -/
@@ -276,8 +280,9 @@ theorem c04_terminates (c : Cfg) (s : St) (os : List Outcome)
           simp [apply_osErr c s o hc, shouldTerminate, abandoned, failsConsec]
         simp [runTrace_term _ _ _ ht', ht']
 
-example : ([Outcome.exit 1 false 0, .exit 1 false 0, .exit 0 false 1].length
-    ≥ (({ N := 1, retries := 3 } : Cfg).N - ({} : St).maxInv) + (7 - ({} : St).failed)) = False := by decide
+/-- non-vacuity: eight outcomes for a fresh run with N = 1 -/
+example : (List.replicate 8 (Outcome.exit 1 false 0)).length
+    ≥ (({ N := 1, retries := 3 } : Cfg).N - ({} : St).maxInv) + (7 - ({} : St).failed) := by decide
 
 /-- "exit status 127 abandons at once the run": after a 127 (or an OSError at
 start) the run is terminated and abandoned in every state, so the loop starts
